@@ -101,14 +101,14 @@ func zzC16_new_ExposureBias() {
 	zzReached("end")
 }
 
-// text decoders are total: arbitrary byte strings of every length 0..48 (64 thorough); one harness per decoder
+// text decoders are total: arbitrary byte strings of every length 0..48 (50 thorough); one harness per decoder
 func zzLens() (int, int) {
 	p := zzPart()
 	lo, hi := p*6, p*6+5
 	if p == 8 {
 		lo, hi = 48, 48
 		if zzTier() == 1 {
-			hi = 64
+			hi = 50
 		}
 	}
 	return lo, hi
